@@ -22,25 +22,26 @@ theorem fail_reports_error (env : Env) (fuel : Nat) (states : Json) (name : Str)
 
 /-- a state with `End: true` ends the scope successfully with its output — whatever that output
 contains (in particular an `Error` member does not turn success into failure) -/
-theorem end_reached_succeeds (env : Env) (fuel : Nat) (states : Json) (name : Str) (state out ctx : Json)
+theorem end_reached_succeeds (env : Env) (fuel : Nat) (states : Json) (name : Str) (state raw out ctx : Json)
     (retries : Nat) (st : St) (h : isTrue (fld state "End") = true) :
-    leave env (fuel + 1) states name state out ctx retries st = (.done out, st) := by
+    leave env (fuel + 1) states name state raw out ctx retries st = (.done out, st) := by
   simp [leave, h]
 
 /-- without End the successor is exactly `Next`, entered with the state's output as its input -/
-theorem next_followed (env : Env) (fuel : Nat) (states : Json) (name next : Str) (state out ctx : Json)
+theorem next_followed (env : Env) (fuel : Nat) (states : Json) (name next : Str) (state raw out ctx : Json)
     (retries : Nat) (st : St) (hE : isTrue (fld state "End") = false) (hN : fldStr state "Next" = some next)
     (hL : (render out).length ≤ env.maxData) :
-    leave env (fuel + 1) states name state out ctx retries st = runFrom env fuel states next out ctx 0 st := by
+    leave env (fuel + 1) states name state raw out ctx retries st = runFrom env fuel states next out ctx 0 st := by
   have : ¬ (render out).length > env.maxData := by omega
   simp [leave, hE, hN, this]
 
-/-- a missing `Next` (and no End) is the runtime error, subject to the state's Retry/Catch -/
+/-- a missing `Next` (and no End) is the runtime error, subject to the state's Retry/Catch — which
+work on the state's raw input `raw`, not on the output `out` it could not hand on -/
 theorem missing_next_is_runtime_error (env : Env) (fuel : Nat) (states : Json) (name : Str)
-    (state out ctx : Json) (retries : Nat) (st : St)
+    (state raw out ctx : Json) (retries : Nat) (st : St)
     (hE : isTrue (fld state "End") = false) (hN : fldStr state "Next" = none) :
-    leave env (fuel + 1) states name state out ctx retries st =
-      handleErr env fuel states name state out ctx retries (S "States.Runtime") (S "m") st := by
+    leave env (fuel + 1) states name state raw out ctx retries st =
+      handleErr env fuel states name state raw ctx retries (S "States.Runtime") (S "m") st := by
   simp [leave, hE, hN]
 
 /-- the Succeed state: InputPath then OutputPath, then success -/
@@ -61,7 +62,7 @@ theorem pass_pipeline (env : Env) (fuel : Nat) (states : Json) (name : Str)
     (hp : tmplOpt env input ctx (fld state "Parameters") = .ok params)
     (hm : mergeResult data ctx ((fld state "Result").getD params) state = .ok out) :
     runState env (fuel + 1) states name state data ctx retries st =
-      leave env fuel states name state out ctx retries st := by
+      leave env fuel states name state data out ctx retries st := by
   simp [runState, h, hi, hp, hm]
 
 /-- `mergeResult` is ResultPath (placing into the raw input) followed by OutputPath -/
@@ -81,7 +82,7 @@ theorem task_pipeline (env : Env) (fuel : Nat) (states : Json) (name fn : Str)
     (hs : tmplOpt env v ctx (fld state "ResultSelector") = .ok result)
     (hm : mergeResult data ctx result state = .ok out) :
     runState env (fuel + 1) states name state data ctx retries st =
-      leave env fuel states name state out ctx retries
+      leave env fuel states name state data out ctx retries
         { st with counts := (bump st.counts (fn, params)).2 } := by
   have h1 : (S "Task" = S "Pass") = False := by decide
   have h2 : (S "Task" = S "Succeed") = False := by decide
@@ -115,7 +116,7 @@ theorem fanout_join_pipeline (env : Env) (fuel : Nat) (states : Json) (name : St
     (hs : tmplOpt env (.arr results) ctx (fld state "ResultSelector") = .ok result)
     (hm : mergeResult data ctx result state = .ok out) :
     joinAndLeave env (fuel + 1) states name state data ctx retries (.ok results) st =
-      leave env fuel states name state out ctx retries st := by
+      leave env fuel states name state data out ctx retries st := by
   simp [joinAndLeave, hs, hm]
 
 /-- a failed branch fails the fan-out state with the branch's error name, subject to the fan-out
